@@ -13,7 +13,7 @@ CONSTANTS
   EmitActs = {"Open"}
   EmitRes = "any"
   EmitWhen = "always"
-INVARIANTS TypeOK NamesUniqueInv OrderInv NoDanglingInv EidsFresh
+INVARIANTS TypeOK NamesUniqueInv OrderInv NoDanglingInv EidsFresh SearchEqualsBruteForce BreadthFirst BackRefsEqualBruteForce
 PROPERTIES DeleteFrame RejectFrame ReadOnlyFrame ReadOnlyRejects ReopenIdentity CloseSaves DurableAfterFlush FlushSaves
 VIEW View
 ACTION_CONSTRAINT Emit
